@@ -146,10 +146,14 @@ func runC17(o *cli.Opts, run *evid.Run) {
 		run.Violate("C17/build", err.Error(), nil)
 		return
 	}
-	gmps := []string{"1", "4", "16"}
+	gmps := []string{"1", "4", "16", "8", "8"}
 	if o.Thorough() {
-		gmps = []string{"1", "1", "2", "4", "7", "16", "16"}
+		gmps = []string{"1", "1", "2", "4", "7", "16", "16", "3", "5", "8", "12"}
 	}
+	// the model is a function of depth and batch size ALONE: the environment a prover deployment exports for the other
+	// commands (MTB_MODE, ...) must not change it
+	envs := [][]string{nil, nil, nil, {"MTB_MODE=insertion"}, {"MTB_MODE=deletion"}, nil, nil,
+		{"MTB_MODE=deletion", "MTB_TREE_DEPTH=20", "MTB_BATCH_SIZE=100", "MTB_KEYS_FILE=/nonexistent", "MTB_JSON_LOGGING=true"}, {"MTB_MODE=garbage", "GOGC=10"}, {"TZ=Asia/Kolkata", "LANG=tr_TR.UTF-8", "LC_ALL=tr_TR.UTF-8"}, {"HOME=/nonexistent", "TMPDIR=" + o.Scratch}}
 	cli.ForEach(len(gmps), 4, func(i int) {
 		key := fmt.Sprintf("C17/proc/%d", i)
 		if !run.Wants(key) {
@@ -160,7 +164,8 @@ func runC17(o *cli.Opts, run *evid.Run) {
 			// the output path already holds an older, longer model (regenerating a committed file in place)
 			os.WriteFile(out, []byte(committed+strings.Repeat("-- stale tail of an older model\n", 2000)), 0o644)
 		}
-		res := proc.Run(bin, nil, 10*time.Minute, []string{"GOMAXPROCS=" + gmps[i]}, "extract-circuit", "--tree-depth", "30", "--batch-size", "4", "--output", out)
+		env := append([]string{"GOMAXPROCS=" + gmps[i]}, envs[i%len(envs)]...)
+		res := proc.Run(bin, nil, 10*time.Minute, env, "extract-circuit", "--tree-depth", "30", "--batch-size", "4", "--output", out)
 		if res.Exit != 0 {
 			run.Violate(key, fmt.Sprintf("extract-circuit exits %d: %s", res.Exit, tailOf(res.Stderr)), nil)
 			return
@@ -171,7 +176,7 @@ func runC17(o *cli.Opts, run *evid.Run) {
 			run.Violate(key, "no output file: "+err.Error(), nil)
 			return
 		}
-		compare(key, fmt.Sprintf("`gnark-mbu extract-circuit` GOMAXPROCS=%s", gmps[i]), string(b))
+		compare(key, fmt.Sprintf("`gnark-mbu extract-circuit` with environment %v", env), string(b))
 	})
 	run.Stage("proc")
 	// sweep: success and determinism, revisiting dimensions within one process
